@@ -193,3 +193,33 @@ func VerifHarness_C05_OffOn() {
 	verifReach("searched")
 	verifReach("done")
 }
+
+// replacement through the monitoring entry point: an answer cached before it must not survive
+func VerifHarness_C05_MonitoredReload() {
+	db := c04DB(false)
+	mdb := NewMonitoredDatabase(db)
+	q := c05Queries[verifIntRange("query", 0, 2)]
+	o := SearchOptions{Limit: 3}
+	search := func(tag string) {
+		var got []SearchResult
+		switch verifIntRange("entry", 0, 2) {
+		case 0:
+			got = mdb.SearchWithOptionsAndMonitoring(q, o)
+		case 1:
+			got = mdb.SearchWithOptionsAndCache(q, o)
+		case 2:
+			got = mdb.SearchWithMonitoring(q, o.Limit)
+		}
+		c05Compare(mdb.Database, got, q, o, tag)
+	}
+	search("before")
+	switch verifIntRange("change", 0, 1) {
+	case 0:
+		_ = mdb.LoadDatabaseWithMonitoring(c01DB(3).Commands)
+	case 1:
+		mdb.UpdateDatabase(c01DB(3).Commands)
+	}
+	search("after a monitored reload")
+	verifReach("searched")
+	verifReach("done")
+}
